@@ -20,6 +20,12 @@ CLAIMS = {
          "a body runs in extend_with(extend_shared(caller, captured scope) | caller, locals) with parameters inserted last, and the captured scope is built from the defining environment for exactly the collected names minus parameters (R2); "
          "Exact/AtLeast/Between are tested identically in both check_arity copies and can_accept, get_arity classifies by rest/all-required/optional, required/optional/rest bind positionally without raw indexing, and the arity check dominates the call (R3).",
          BASE_NOTE, "DESIGN.md §4 C04"),
+ "C05": ("printer-inverts-parser lints: token / precedence / reserved-word / built-in-name table agreement, abstract interpretation of the string-building code of every printer arm (shape, child order, operand guards), MIR dominance of validation over emission, binder agreement between capture analysis and inliner",
+         "Exhaustive static decision, for the function-source emitters (expr_to_source, expr_to_source_with_scope, serializable_value_to_source and helpers), of: operator tokens = grammar literals (L1); parenthesisation guards of every tight operand position cover the child kinds the grammar cannot re-read bare (L2); "
+         "printer precedence levels and the same-level rule agree with the parser's binding levels, with true operand sides (L3); string content is not rewritten (L4); non-finite numbers are tested (L5) and finite ones printed exactly (L10); reserved words, built-in names and the function-object key round-trip (L6-L8); "
+         "every arm emits the grammar's tokens and each child once in order (L9); outputs are inserted only through the Ok edge of validate_portable_value (R7); binders agree between collect_free_variables and the inliner for all parameters (R8). "
+         "27 construct-keyed known findings are recorded (unparenthesised operands, level clashes, escaped strings, NaN, do-block binders). Behavioural equivalence of the reloaded function is not decided.",
+         BASE_NOTE, "DESIGN.md §4 C05"),
  "C06": ("resolved cargo feature check (serde_json float_roundtrip) + match-table bijection over the four value<->JSON conversion functions + HIR guard analysis of the input-object loop",
          "Exhaustive static decision of: JSON text is parsed by serde_json built with float_roundtrip and without arbitrary_precision (R1); from_json/to_json/from_value/to_value preserve the value kind arm by arm, compose to the identity on the six data kinds, "
          "recurse with the same function and are lossy only on the number arm (R2); records are IndexMap end to end and the outputs map handed to serde_json is an IndexMap (R3); every member of an input object is inserted, conditional only on its own conversion (R4); "
@@ -30,6 +36,15 @@ CLAIMS = {
          "JSON number input is correctly rounded by configuration (R2); each alternative of the grammar's number rule has a conversion branch with the same sign/prefix set, matching radix and sign table, underscores removed, and decimal text / to_number go through <f64 as FromStr> with no arithmetic on the result (R3). "
          "Correct rounding inside std and ryu is trusted.",
          BASE_NOTE, "DESIGN.md §4 C16"),
+ "C07": ("the same printer lints over the formatter's own functions and its expr_to_source fall-back + line-break gaps checked against the grammar (abstract interpretation of string building)",
+         "Exhaustive static decision, for every formatter function and the fall-back printer, of the token, precedence, operand-guard, string-content and reserved-word rules L1-L6, and that every printer arm emits the construct's tokens and children in grammar order, each child once on every output path, static record keys through format_record_key, "
+         "and line breaks only in gaps where the grammar admits them (R7). 30 construct-keyed known findings are recorded. That the combination of layouts re-parses to the same tree for every width is not decided.",
+         BASE_NOTE, "DESIGN.md §4 C07"),
+ "C09": ("comment-field consumption lint over the formatter (scoped HIR walk + call-graph reachability), grammar child-slot tables against the AST builder and both format drivers, PEG gap analysis for comment-swallowing NEWLINE, emission order by abstract interpretation",
+         "Exhaustive static decision of: wherever a printer reachable from format_expr unwraps a Commented member it also emits .leading and .trailing or is guarded by has_comments() (R1); the formatter calls the comment-unaware printers only at the recorded fall-back sites (R1b); both drivers consume both child slots of `statement` (R2); "
+         "the AST builder has an arm for every comment-bearing child slot of list/record/do_block and their items and appends tail comments after the member's own trailing comment (R3); leading comments, member, trailing comment are emitted in that order (R4); "
+         "no further grammar rule separates tokens with the comment-swallowing NEWLINE (R5). 13 construct-keyed known findings are recorded. Order preservation under line breaking in general is not decided.",
+         BASE_NOTE, "DESIGN.md §4 C09"),
  "C10": ("table agreement (const precedence table, Pratt registration order, AST-builder match arms, grammar alternatives) + structural PEG analyses (ordered-choice shadowing, keyword guards, atomicity cascade)",
          "Exhaustive static decision of: the effective binding order (PRECEDENCE_TABLE + the registration algorithm read off build_pratt_parser) equals the documented level list for all 26 binary, 4 prefix and 4 postfix operators (R1); "
          "grammar alternatives = table = registrations = builder arms with agreeing (Rule, BinaryOp) pairs and documented tokens (R2); no operator literal is shadowed by an earlier alternative or by a postfix literal without look-ahead (R3); "
